@@ -422,7 +422,7 @@ func (c14) RunBatch(ctx *core.Ctx, batch int) {
 			<-start
 			for k := 0; k < perG; k++ {
 				if k%4 == 1 {
-					q := fmt.Sprintf("u%d_%d_%d:w%d_%d OR x%d_%d_%d:[1 TO %d] AND NOT y%d_%d_%d:p%d*", batch, g, k, g, k, batch, g, k, k+2, batch, g, k, k)
+					q := fmt.Sprintf("u%d_%d_%d:w%d_%d OR x%d_%d_%d:[1 TO %d] AND NOT y%d_%d_%d:p%d* OR z:[%d.%d25 TO %d.5] OR z:>%d%d.125", batch, g, k, g, k, batch, g, k, k+2, batch, g, k, k, k, g, k+g+1, g, k)
 					op := rr.Intn(3)
 					fresh[g] = append(fresh[g], freshRec{q, op, runOp(op, q, nil)})
 					continue
